@@ -1057,15 +1057,20 @@ class RegistryMonitor:
     def __init__(self):
         self.key_of = {}
         self.waiters = {}
+        self.open = set()
 
     def feed(self, op, line):
         v = []
         k = kvs(op)
         name = op.split()[0]
         if name == "r.init":
-            self.key_of, self.waiters = {}, {}
+            self.key_of, self.waiters, self.open = {}, {}, set()
         if name in ("r.open", "r.doa"):
             self.key_of[int(k["t"])] = k["key"]
+        if name == "r.open":
+            self.open.add(int(k["t"]))
+        if name in ("r.close", "r.closewait"):
+            self.open.discard(int(k["t"]))
         if name == "r.wait":
             self.waiters[int(k["w"])] = k["key"]
         if name == "r.closewait":
@@ -1074,6 +1079,18 @@ class RegistryMonitor:
         if not m:
             return v
         live = [int(x) for x in m.group(1).split(",") if x]
+        # C12 / C14: at every quiescent moment the registry holds exactly the open tunnels
+        if set(live) != self.open or len(live) != len(set(live)):
+            v.append(("C12", "registry-not-exact", f"AllReverseTunnels() = {live} but the open tunnels are {sorted(self.open)} after `{op}`"))
+            v.append(("C14", "registry-not-exact", f"the reverse-tunnel registry lists {live} but the open tunnels are {sorted(self.open)} after `{op}`"))
+        ms = re.match(r"served=(\S+) ", line)
+        if ms and ms.group(1).isdigit() and int(ms.group(1)) not in self.open:
+            v.append(("C12", "routed-to-closed-tunnel", f"an RPC was served by tunnel {ms.group(1)}, which is not open ({sorted(self.open)})"))
+        if ms and ms.group(1) == "unavailable" and name == "r.pick":
+            via = k.get("via", "")
+            cand = [t for t in self.open if via == "all" or self.key_of.get(t) == via[4:]]
+            if cand:
+                v.append(("C12", "unavailable-although-open", f"`{op}` was refused as unavailable although tunnel(s) {sorted(cand)} are open for it"))
         if (m.group(2) == "1") != bool(live):
             v.append(("C12", "ready-wrong", f"Ready() = {m.group(2)} with open tunnels {live}"))
         for w in m.group(3).split():
